@@ -151,7 +151,10 @@ func operands(e ast.Expr) []string {
 	return out
 }
 
-type aliasEdit struct{ from, to int; text string }
+type aliasEdit struct {
+	from, to int
+	text     string
+}
 
 // substituteNewAliases: c was parsed from "package p\n"+text with positions indexing into that text; nil when nothing changed
 func substituteNewAliases(key string, c *ast.FuncDecl) *ast.FuncDecl {
@@ -382,9 +385,12 @@ func expandSlicesEqualPrefix(c *ast.FuncDecl) {
 }
 
 // splitSingleExit: a lookup-or-compute written with one exit
-//     x := F(…); if x == nil { x = G(…); S… }; return R(x)
+//
+//	x := F(…); if x == nil { x = G(…); S… }; return R(x)
+//
 // is presented in the form the sources use (early return on a hit):
-//     if x := F(…); x != nil { return R(x) }; x := G(…); S…; return R(x)
+//
+//	if x := F(…); x != nil { return R(x) }; x := G(…); S…; return R(x)
 func splitSingleExit(c *ast.FuncDecl) {
 	l := c.Body.List
 	n := len(l)
